@@ -144,10 +144,10 @@ func corpus() []*History {
 	// W22 (seed C12-7): every provider answers early, so the batch is complete while its expiry is still
 	// pending; the consumer pauses and starts again inside that window. The start must not queue a batch:
 	// the next one starts at the old expiry, and no batch is ever completed before its own expiry unanswered.
-	add("W22-pause-start-after-early-answers", 0, append(rich(101), [2]int64{111, 1000}),
+	add("W22-pause-start-after-early-answers", 9, append(rich(101), [2]int64{111, 1000}),
 		opDefine(1, 101),
 		opBind(1, 126, 101, base(6000), price("10"), 1),
-		opCall(1022, 1, []int64{126}, 111, 1000, 3, true, 3, -1),
+		opCall(1022, 1, []int64{126}, 111, 1000, 3, true, 6, -1),
 		opEB(5*sec),
 		opRespond(1022, 1, 10, 0, 126, 200, 1, true),
 		opCtx("pause", 1022, 111),
